@@ -10,42 +10,6 @@ set_option linter.unusedVariables false
 
 /-! ## string and URI values -/
 
-theorem unescQuote_cons_ne (q c : Nat) (l : Cps) (h : c ≠ 0x5C) : unescQuote q (c :: l) = c :: unescQuote q l := by
-  cases l with
-  | nil => simp [unescQuote]
-  | cons d rest => simp [unescQuote, h]
-
-def escQuote (q : Nat) (h : Cps) : Cps := h.flatMap (fun c => if c = q then [0x5C, c] else [c])
-
-theorem unescQuote_esc (q : Nat) (hq : q ≠ 0x5C) (h : Cps) (hb : 0x5C ∉ h) :
-    unescQuote q (escQuote q h ++ [q]) = h ++ [q] := by
-  induction h with
-  | nil => simp [escQuote, unescQuote]
-  | cons c t ih =>
-    have hc : c ≠ 0x5C := by intro hh; exact hb (by simp [hh])
-    have ht : 0x5C ∉ t := by intro hh; exact hb (by simp [hh])
-    by_cases hcq : c = q
-    · subst hcq
-      have : escQuote c (c :: t) ++ [c] = 0x5C :: c :: (escQuote c t ++ [c]) := by simp [escQuote]
-      rw [this]
-      simp only [unescQuote, true_and, ↓reduceIte]
-      rw [ih ht]
-      simp
-    · have : escQuote q (c :: t) ++ [q] = c :: (escQuote q t ++ [q]) := by simp [escQuote, hcq]
-      rw [this, unescQuote_cons_ne q c _ hc, ih ht]
-      simp
-
-theorem quoteStr_eq (q : Quote) (h : Cps) : quoteStr q h = q.cp :: (escQuote q.cp h ++ [q.cp]) := rfl
-
-theorem quote_ne_bs (q : Quote) : q.cp ≠ 0x5C := by cases q <;> decide
-
-/-- `_stringtokenvalue` gives back the text of a quoted string -/
-theorem stringValue_quoteStr (q : Quote) (h : Cps) (hb : 0x5C ∉ h) : stringValue (quoteStr q h) = h := by
-  rw [quoteStr_eq]
-  simp only [stringValue]
-  rw [unescQuote_cons_ne _ _ _ (quote_ne_bs q), unescQuote_esc _ (quote_ne_bs q) h hb]
-  simp
-
 theorem dropWhile_ws_append (g l : Cps) (hg : ∀ c ∈ g, isWsCp c = true) :
     (g ++ l).dropWhile isWsCp = l.dropWhile isWsCp := by
   induction g with
@@ -210,17 +174,6 @@ theorem SHref.tok_val_safe (r : SHref) : SafeVal r.tok.val := by
     rw [hc]
     rfl
 
-theorem safe_flat_noStr (m : Mode) (hm : m.endString = false) (t : Tok) (hv : SafeVal t.val) (h1 : t.typ ≠ .eof)
-    (h2 : t.typ ≠ .function) : Flat m t := by
-  refine ⟨h1, safe_br t hv h2, ?_⟩
-  obtain ⟨c, cs, hv, hc⟩ := hv
-  simp only [endTok, hm, Bool.false_and, Bool.or_false]
-  cases h : isInfixOf t.val m.ends with
-  | false => rfl
-  | true =>
-    rw [hv] at h
-    exact absurd (ends_sub_delims m c (isInfixOf_head_mem c cs _ h)) hc
-
 theorem SHref.tok_typ (r : SHref) : r.tok.typ = .string ∨ r.tok.typ = .uri := by
   cases r <;> simp [SHref.tok]
 
@@ -278,10 +231,11 @@ structure ImpMqOk (m : List Tok) : Prop where
   qi : Quiet .importmq [] m = true
   qd : QB .default m
 
-structure ImportWF (O : Oracle) (href : SHref) (mq : Option (List Tok × Gap)) : Prop where
+structure ImportWF (O : Oracle) (href : SHref) (mq : Option (List Tok × Gap)) (name : SName) : Prop where
   hrefWF : href.WF
   ne : href.value ≠ []
   mqWF : ∀ p, mq = some p → ImpMqOk p.1 ∧ O.mediaOk (p.1 ++ Gap.toks p.2) = true
+  nameWF : NameWF name
 
 /-- the href production on a spelled string / URL token -/
 theorem impStep_href (O : Oracle) (r : SHref) (h : r.WF) (rest : List Tok) :
@@ -296,11 +250,47 @@ theorem semi_importmq : push [] semiTok = some [] ∧ endTok .importmq semiTok =
   · simp [push, Tok.br, semiTok, charTok]
   · decide
 
+theorem strTok_importmq (q : Quote) (n : Cps) :
+    push [] (strTok q n) = some [] ∧ endTok .importmq (strTok q n) = true := by
+  constructor
+  · have := (strTok_flat .default rfl q n).2.1
+    simp [push, this]
+  · simp [endTok, Mode.endString, strTok]
+
+/-- the end of the statement after the media query list / the href: `["name" g4] ;` -/
+theorem impLoop_tail (O : Oracle) (name : SName) (hn : NameWF name) (s : ImpSt)
+    (hs : s.exp = .mediaNameSemi ∨ (s.exp = .semi ∧ name = none)) :
+    parseLoop (impStep O) s (nameToks name ++ [semiTok]) =
+      { s with exp := .eof, name := if name.isSome then name.map (·.2.1) else s.name } := by
+  cases name with
+  | none =>
+    simp only [nameToks, List.nil_append, Option.isSome_none, Bool.false_eq_true, ↓reduceIte]
+    rw [impLoop_cons]
+    rcases hs with hs | ⟨hs, _⟩ <;> simp [impStep, semiTok, charTok, vSemi, parseLoop_nil, hs]
+  | some p =>
+    obtain ⟨q, n, g4⟩ := p
+    have hs : s.exp = .mediaNameSemi := by
+      rcases hs with hs | ⟨_, hh⟩
+      · exact hs
+      · simp at hh
+    simp only [nameToks, List.cons_append, Option.isSome_some, ↓reduceIte, Option.map_some]
+    rw [impLoop_cons]
+    have e : impStep O s (strTok q n) (Gap.toks g4 ++ [semiTok]) =
+        ({ s with name := some n, exp := .semi }, Gap.toks g4 ++ [semiTok]) := by
+      simp [impStep, strTok, hs, stringValue_quoteStr q n (hn _ rfl)]
+    rw [e]
+    simp only
+    rw [parseLoop_skip_inv (impStep O) (fun s => s.exp ≠ .eof) _ _
+      (fun t ht s rest hs => impStep_gap O t ((gapL_toks g4).isGap t ht) s rest hs) _ (by simp)]
+    rw [impLoop_cons]
+    simp [impStep, semiTok, charTok, vSemi, parseLoop_nil]
+
 /-- the `_parse` run of `CSSImportRule` over a rendered `@import` (after the at-keyword) -/
 theorem impLoop_render (O : Oracle) (g1 : Gap) (href : SHref) (g2 : Gap)
-    (mq : Option (List Tok × Gap)) (h : ImportWF O href mq) :
-    parseLoop (impStep O) {} (Gap.toks g1 ++ href.tok :: (Gap.toks g2 ++ (impMqToks mq ++ [semiTok]))) =
-      { exp := .eof, href := some href.value, media := mq.map (fun p => p.1 ++ Gap.toks p.2) } := by
+    (mq : Option (List Tok × Gap)) (name : SName) (h : ImportWF O href mq name) :
+    parseLoop (impStep O) {} (Gap.toks g1 ++ href.tok :: (Gap.toks g2 ++ (impMqToks mq ++ (nameToks name ++ [semiTok])))) =
+      { exp := .eof, href := some href.value, media := mq.map (fun p => p.1 ++ Gap.toks p.2),
+        name := name.map (·.2.1) } := by
   rw [parseLoop_skip_inv (impStep O) (fun s => s.exp ≠ .eof) _ _
     (fun t ht s rest hs => impStep_gap O t ((gapL_toks g1).isGap t ht) s rest hs) {} (by simp)]
   rw [impLoop_cons, impStep_href O href h.hrefWF]
@@ -310,8 +300,8 @@ theorem impLoop_render (O : Oracle) (g1 : Gap) (href : SHref) (g2 : Gap)
   cases mq with
   | none =>
     simp only [impMqToks, List.nil_append, Option.map_none]
-    rw [impLoop_cons]
-    simp [impStep, semiTok, charTok, vSemi, parseLoop_nil]
+    rw [impLoop_tail O name h.nameWF _ (Or.inl rfl)]
+    cases name <;> simp
   | some p =>
     obtain ⟨m, g3⟩ := p
     obtain ⟨hm, hO⟩ := h.mqWF (m, g3) rfl
@@ -319,43 +309,94 @@ theorem impLoop_render (O : Oracle) (g1 : Gap) (href : SHref) (g2 : Gap)
     have hq : Quiet .importmq [] ((t :: m') ++ Gap.toks g3) = true :=
       quiet_append _ _ _ _ _ hm.qi hm.qd.2 ((gapL_toks g3).qb _).1
     have hn : nest [] ((t :: m') ++ Gap.toks g3) = some [] := bal_append hm.qd.2 ((gapL_toks g3).qb .default).2
-    have hup : upto .importmq (some t) ((m' ++ Gap.toks g3) ++ [semiTok]) = (t :: (m' ++ Gap.toks g3) ++ [semiTok], []) := by
-      have := upto_start_end .importmq [] [] t (m' ++ Gap.toks g3) semiTok [] rfl
-        (by simpa using quiet_cons_start _ _ _ hq) (by simpa using nest_cons_start _ _ _ hn)
-        semi_importmq.1 semi_importmq.2
-      simpa using this
-    have e : (t :: m' ++ Gap.toks g3) ++ [semiTok] = t :: ((m' ++ Gap.toks g3) ++ [semiTok]) := by simp
+    have hO' : O.mediaOk (t :: m' ++ Gap.toks g3) = true := hO
     simp only [Option.map_some, impMqToks]
-    rw [e, impLoop_cons]
-    have hident : ∀ s : ImpSt, s.exp = .mediaNameSemi → s.wf = true → s.name = none →
-        impIdent O s t ((m' ++ Gap.toks g3) ++ [semiTok]) =
-          ({ s with media := some (t :: m' ++ Gap.toks g3), exp := .eof }, []) := by
-      intro s hs hw hn
-      have l1 : (t :: (m' ++ Gap.toks g3) ++ [semiTok]).getLast? = some semiTok := by
-        rw [show t :: (m' ++ Gap.toks g3) ++ [semiTok] = (t :: (m' ++ Gap.toks g3)) ++ [semiTok] from rfl,
-          List.getLast?_concat]
-      have l2 : (t :: (m' ++ Gap.toks g3) ++ [semiTok]).dropLast = t :: m' ++ Gap.toks g3 := by
-        rw [show t :: (m' ++ Gap.toks g3) ++ [semiTok] = (t :: (m' ++ Gap.toks g3)) ++ [semiTok] from rfl,
-          List.dropLast_concat]; simp
-      have hO' : O.mediaOk (t :: m' ++ Gap.toks g3) = true := hO
-      simp only [impIdent, hs, ↓reduceIte, hup, l1, l2, hO']
-      simp [semiTok, charTok, vSemi, hw]
-    rcases ht with ht | ⟨ht1, ht2⟩
-    · simp only [impStep, ht]
-      rw [hident _ rfl rfl rfl]
-      simp [parseLoop_nil]
-    · have hns : t.val ≠ vSemi := by rw [ht2]; decide
-      simp only [impStep, ht1, hns, and_false, ↓reduceIte, ht2, and_self]
-      rw [hident _ rfl rfl rfl]
-      simp [parseLoop_nil]
+    cases name with
+    | none =>
+      have hup : upto .importmq (some t) ((m' ++ Gap.toks g3) ++ [semiTok]) = (t :: (m' ++ Gap.toks g3) ++ [semiTok], []) := by
+        have := upto_start_end .importmq [] [] t (m' ++ Gap.toks g3) semiTok [] rfl
+          (by simpa using quiet_cons_start _ _ _ hq) (by simpa using nest_cons_start _ _ _ hn)
+          semi_importmq.1 semi_importmq.2
+        simpa using this
+      have e : (t :: m' ++ Gap.toks g3) ++ (nameToks none ++ [semiTok]) = t :: ((m' ++ Gap.toks g3) ++ [semiTok]) := by
+        simp [nameToks]
+      rw [e, impLoop_cons]
+      have hident : ∀ s : ImpSt, s.exp = .mediaNameSemi → s.wf = true → s.name = none →
+          impIdent O s t ((m' ++ Gap.toks g3) ++ [semiTok]) =
+            ({ s with media := some (t :: m' ++ Gap.toks g3), exp := .eof }, []) := by
+        intro s hs hw hn
+        have l1 : (t :: (m' ++ Gap.toks g3) ++ [semiTok]).getLast? = some semiTok := by
+          rw [show t :: (m' ++ Gap.toks g3) ++ [semiTok] = (t :: (m' ++ Gap.toks g3)) ++ [semiTok] from rfl,
+            List.getLast?_concat]
+        have l2 : (t :: (m' ++ Gap.toks g3) ++ [semiTok]).dropLast = t :: m' ++ Gap.toks g3 := by
+          rw [show t :: (m' ++ Gap.toks g3) ++ [semiTok] = (t :: (m' ++ Gap.toks g3)) ++ [semiTok] from rfl,
+            List.dropLast_concat]; simp
+        simp only [impIdent, hs, ↓reduceIte, hup, l1, l2, hO']
+        simp [semiTok, charTok, vSemi, hw]
+      rcases ht with ht | ⟨ht1, ht2⟩
+      · simp only [impStep, ht]
+        rw [hident _ rfl rfl rfl]
+        simp [parseLoop_nil]
+      · have hns : t.val ≠ vSemi := by rw [ht2]; decide
+        simp only [impStep, ht1, hns, and_false, ↓reduceIte, ht2, and_self]
+        rw [hident _ rfl rfl rfl]
+        simp [parseLoop_nil]
+    | some pn =>
+      obtain ⟨q, n, g4⟩ := pn
+      have hnv := stringValue_quoteStr q n (h.nameWF _ rfl)
+      have hup : upto .importmq (some t) ((m' ++ Gap.toks g3) ++ strTok q n :: (Gap.toks g4 ++ [semiTok])) =
+          (t :: (m' ++ Gap.toks g3) ++ [strTok q n], Gap.toks g4 ++ [semiTok]) := by
+        have := upto_start_end .importmq [] [] t (m' ++ Gap.toks g3) (strTok q n) (Gap.toks g4 ++ [semiTok]) rfl
+          (by simpa using quiet_cons_start _ _ _ hq) (by simpa using nest_cons_start _ _ _ hn)
+          (strTok_importmq q n).1 (strTok_importmq q n).2
+        simpa using this
+      have e : (t :: m' ++ Gap.toks g3) ++ (nameToks (some (q, n, g4)) ++ [semiTok]) =
+          t :: ((m' ++ Gap.toks g3) ++ strTok q n :: (Gap.toks g4 ++ [semiTok])) := by
+        simp [nameToks]
+      rw [e, impLoop_cons]
+      have hident : ∀ s : ImpSt, s.exp = .mediaNameSemi → s.wf = true →
+          impIdent O s t ((m' ++ Gap.toks g3) ++ strTok q n :: (Gap.toks g4 ++ [semiTok])) =
+            ({ s with media := some (t :: m' ++ Gap.toks g3), name := some n, exp := .semi },
+              Gap.toks g4 ++ [semiTok]) := by
+        intro s hs hw
+        have l1 : (t :: (m' ++ Gap.toks g3) ++ [strTok q n]).getLast? = some (strTok q n) := by
+          rw [show t :: (m' ++ Gap.toks g3) ++ [strTok q n] = (t :: (m' ++ Gap.toks g3)) ++ [strTok q n] from rfl,
+            List.getLast?_concat]
+        have l2 : (t :: (m' ++ Gap.toks g3) ++ [strTok q n]).dropLast = t :: m' ++ Gap.toks g3 := by
+          rw [show t :: (m' ++ Gap.toks g3) ++ [strTok q n] = (t :: (m' ++ Gap.toks g3)) ++ [strTok q n] from rfl,
+            List.dropLast_concat]; simp
+        have hv : stringValue (strTok q n).val = n := hnv
+        have hty : (strTok q n).typ = TT.string := rfl
+        simp only [impIdent, hs, ↓reduceIte, hup, l1, l2, hO', hty, hv]
+        simp [hw]
+      have htail : ∀ s : ImpSt, s.exp = .semi →
+          parseLoop (impStep O) s (Gap.toks g4 ++ [semiTok]) = { s with exp := .eof } := by
+        intro s hs
+        rw [parseLoop_skip_inv (impStep O) (fun s => s.exp ≠ .eof) _ _
+          (fun t ht s rest hs => impStep_gap O t ((gapL_toks g4).isGap t ht) s rest hs) _ (by simp [hs])]
+        rw [impLoop_cons]
+        simp [impStep, semiTok, charTok, vSemi, parseLoop_nil, hs]
+      rcases ht with ht | ⟨ht1, ht2⟩
+      · simp only [impStep, ht]
+        rw [hident _ rfl rfl]
+        simp only
+        rw [htail _ rfl]
+        simp
+      · have hns : t.val ≠ vSemi := by rw [ht2]; decide
+        have hps : ¬ (vLParen = vSemi) := by decide
+        simp only [impStep, ht1, hns, hps, and_false, ↓reduceIte, ht2, and_self]
+        rw [hident _ rfl rfl]
+        simp only
+        rw [htail _ rfl]
+        simp
 
 /-- `CSSImportRule.cssText = tokens` on a rendered `@import` -/
 theorem importRule_render (O : Oracle) (kw : Mask) (g1 : Gap) (href : SHref) (g2 : Gap)
-    (mq : Option (List Tok × Gap)) (h : ImportWF O href mq) :
-    importRule O (SImp.import_ kw g1 href g2 mq).toks =
-      some ⟨href.value, mq.map (fun p => p.1 ++ Gap.toks p.2), none⟩ := by
+    (mq : Option (List Tok × Gap)) (name : SName) (h : ImportWF O href mq name) :
+    importRule O (SImp.import_ kw g1 href g2 mq name).toks =
+      some ⟨href.value, mq.map (fun p => p.1 ++ Gap.toks p.2), name.map (·.2.1)⟩ := by
   have hne := h.ne
-  simp only [SImp.toks, importRule, atTok, impLoop_render O g1 href g2 mq h]
+  simp only [SImp.toks, importRule, atTok, impLoop_render O g1 href g2 mq name h]
   simp [hne]
 
 /-! ## `@namespace` -/
